@@ -124,6 +124,9 @@ package tacquito
 //@   requires wire.AuthenStart(f, data) && valid.AuthenStart(f) && fits.AuthenStart(f)
 //@   ensures[C01] err == nil && *a == f
 //@   ensures[C19] clean.AuthenStart(data)
+//@   taints[C18] data 3
+//@   ensures[C18] taintkind(data, 1) ==> tainted(a.Data, 1)
+//@   ensures[C18] taintkind(data, 2) ==> tainted(a.User, 2) && tainted(a.Port, 2) && tainted(a.RemAddr, 2) && tainted(a.Data, 2)
 
 //@ func (a *AuthenReply) Validate() (err error)
 //@   requires a != nil
@@ -178,6 +181,9 @@ package tacquito
 //@   requires wire.AuthenContinue(f, data) && valid.AuthenContinue(f) && fits.AuthenContinue(f)
 //@   ensures[C01] err == nil && *a == f
 //@   ensures[C19] clean.AuthenContinue(data)
+//@   taints[C18] data 3
+//@   ensures[C18] taintkind(data, 2) ==> tainted(a.UserMessage, 2)
+//@   ensures[C18] taintkind(data, 1) ==> tainted(a.UserMessage, 1) && tainted(a.Data, 1)
 
 // ---------------------------------------------------------------------------
 // accounting.go
@@ -698,7 +704,14 @@ package tacquito
 //@   loop 1 invariant[C17] ghost.wgAdds - old(ghost.wgAdds) == ghost.spawned - old(ghost.spawned)
 //@   loop 1 invariant[C17] ghost.lclosed == old(ghost.lclosed) && ghost.waited == old(ghost.waited)
 
+// Label 1: the body is an authentication START whose data field is the secret (PAP password).
+// Label 2: the body is an authentication CONTINUE whose user message is the secret (ASCII
+// password). Fields tries START first, so a CONTINUE that also parses as a START spreads
+// its bytes over the START field names. The key summary is assumed by the verifier (map
+// contents are not tracked per key) and validated by the witness c18_fields_summary.
 //@ func (r Request) Fields(keys ...ContextKey) (m map[string]string)
+//@   ensures[C18] taintkind(r.Body, 1) ==> taintkeys(m, "data")
+//@   ensures[C18] taintkind(r.Body, 2) ==> taintkeys(m, "user", "port", "rem-addr", "data", "user-msg")
 //@   loop 1 invariant -1 <= rangeindex && rangeindex < len(keys)
 
 //@ func SetAuthorReplyArgs$1(a *AuthorReply)
